@@ -698,6 +698,81 @@ example : (cleanPieces [] [[97, 98, 27, 91, 51], [49, 109, 99, 27], [93, 48, 59,
     (cleanPieces [] [[97, 98, 27, 91, 51], [49, 109, 99, 27], [93, 48, 59, 116], [7, 100]]).2 = [] :=
   ansi_any_chunk exSegs exSegs_tame _ (by decide) (by decide)
 
+/-! ### CR and escape sequences together; the prompt read over a decorated stream -/
+
+theorem stripCR_idem (b : Bytes) : stripCR (stripCR b) = stripCR b := by
+  simp [stripCR, List.filter_filter]
+
+theorem map_stripCR_flatten (rs : List Bytes) : (rs.map stripCR).flatten = stripCR rs.flatten := by
+  induction rs with
+  | nil => rfl
+  | cons c cs ih => simp only [List.map_cons, List.flatten_cons, stripCR_append, ih]
+
+theorem not_mem_stripCR (b : Bytes) : CR ∉ stripCR b := by
+  intro h
+  have := (List.mem_filter.mp h).2
+  simp at this
+
+/-- carriage returns are removed before anything else: the reads of a stream and of the same stream
+    without its CRs return the same -/
+theorem cleanPieces_stripCR : ∀ (rs : List Bytes) (h : Bytes),
+    cleanPieces h rs = cleanPieces h (rs.map stripCR) := by
+  intro rs
+  induction rs with
+  | nil => intro h; rfl
+  | cons c cs ih =>
+    intro h
+    simp only [List.map_cons, cleanPieces, chanReadH, stripCR_idem]
+    rw [ih]
+
+/-- **CRs and escape sequences inserted anywhere, every segmentation**: if the stream, CRs removed,
+    is text and complete tame sequences (a CR may sit inside a sequence, a read may end inside a
+    sequence), the reads together return exactly the text. -/
+theorem ansi_cr_any_chunk (segs : List Seg) (ht : ∀ g ∈ segs, g.Tame) (rs : List Bytes)
+    (hrs : stripCR rs.flatten = segBytes segs) :
+    (cleanPieces [] rs).1.flatten = segPlain segs ∧ (cleanPieces [] rs).2 = [] := by
+  rw [cleanPieces_stripCR]
+  refine ansi_any_chunk segs ht (rs.map stripCR) ?_ ?_
+  · rw [map_stripCR_flatten]; exact not_mem_stripCR _
+  · rw [map_stripCR_flatten]; exact hrs
+
+/-- **prompt read under arbitrary chunking AND arbitrary CR / escape-sequence decoration**: if the
+    raw stream, CRs removed, is a stream of text and tame sequences whose text is
+    `body ++ NL :: p ++ t`, the read stops at the prompt with the same buffer content as for the
+    undecorated stream — wherever the read boundaries fall. -/
+theorem readUntilPrompt_ansi_chunk_indep {P : Bytes → Bool} (pat : Pat) (d : Nat) (body p t : Bytes)
+    (hS : ∀ w, pat.search w = (splitNL w).any P)
+    (hb : Quiet P body) (he : NoEarly P p) (hok : PromptOK P p t)
+    (hnlp : NL ∉ p) (hnlt : NL ∉ t) (hp0 : p ≠ []) (hd : (p ++ t).length < d)
+    (segs : List Seg) (ht : ∀ g ∈ segs, g.Tame) (hplain : segPlain segs = body ++ NL :: p ++ t)
+    (rs : List Bytes) (hrs : stripCR rs.flatten = segBytes segs) :
+    ∃ k t', t' <+: t ∧
+      readLoop (promptSeen pat d) [] (cleanPieces [] rs).1 = some (body ++ NL :: p ++ t', k) := by
+  obtain ⟨k, t', ht', _, hrl, _⟩ :=
+    readLoop_prompt pat d body p t hS hb he hok hnlp hnlt hp0 hd (cleanPieces [] rs).1 []
+      (by rw [List.nil_append, (ansi_cr_any_chunk segs ht rs hrs).1, hplain]) (by simp; omega)
+  exact ⟨k, t', ht', hrl⟩
+
+/-! ### why `NoEarly` is a hypothesis: a prompt pattern that accepts a proper prefix of the prompt
+    (known finding F10: the GenericDriver default pattern and `user@host:~>`) -/
+
+/-- a generic-like line predicate: no blank, ends in `@` or `>` -/
+def toyP (s : Bytes) : Bool :=
+  match s.getLast? with
+  | some c => (c == 64 || c == 62) && !s.contains 32
+  | none => false
+def toyPat : Pat :=
+  { search := fun x => (splitNL x).any toyP, first := fun x => (splitNL x).find? toyP, sub := id }
+def toyCfg : Cfg := { prompt := toyPat, compile := fun _ => toyPat, depth := 100, ret := [NL], rough := false }
+/-- prompt "a@b>" -/
+def toyDev : LineDev := { out := fun _ => [], prompt := [97, 64, 98, 62], trail := [] }
+
+/-- **F10 in the model (refutation of chunking independence without `NoEarly`)**: the same device,
+    the same bytes; read whole, `get_prompt` returns "a@b>", read 3 bytes first it returns "a@". -/
+theorem getPrompt_prefix_prompt_refuted :
+    (getPrompt toyCfg toyDev.onWrite ({ cuts := [] }, [])).map (·.1) = some [97, 64, 98, 62] ∧
+    (getPrompt toyCfg toyDev.onWrite ({ cuts := [3] }, [])).map (·.1) = some [97, 64] := by decide
+
 /-! ### rough echo matching -/
 
 theorem roughIter_some {ch : UInt8} : ∀ {out rest : Bytes}, roughIter ch out = some rest →
